@@ -55,9 +55,20 @@ pub fn run(src: &str, formula: bool) -> String {
   out
 }
 
+/// class `syntax`: the whole program as an s-expression, before and after formatting
+pub fn run_syntax(src: &str) -> String {
+  let mut out = run(src, false);
+  if out == "skip" { return out; }
+  let f1 = String::from_utf8(crate::c07::unhex(out.split('|').next().unwrap_or("").trim_start_matches("F="))).unwrap_or_default();
+  out.push_str(&format!("|T={}", crate::c08s::tree_of(src)));
+  out.push_str(&format!("|U={}", crate::c08s::tree_of(&f1)));
+  out
+}
+
 pub fn exec(case: &str) -> String {
   let f: Vec<&str> = case.split('\t').collect();
   let src = String::from_utf8(crate::c07::unhex(f[2])).unwrap();
+  if f[1] == "syntax" { return run_syntax(&src); }
   let mut o = run(&src, f[1] == "formula");
   if f[1] == "string" && o != "skip" {
     // the content of the literal as the parser read it: the value the program evaluates to
@@ -91,6 +102,9 @@ pub fn generate(seed: u64, thorough: bool, sink: &mut Sink) -> Vec<String> {
     let toks = c.split('\t').nth(1).unwrap().to_string();
     out.push(format!("fmt\tformula\t{}\t{}", hexs(&crate::c02::source(&c)), toks)); sink.hit("class:formula");
   }
+  // programs over the sublanguage of Model/Syntax.lean: the model parses the tokens, renders them and predicts the
+  // formatted text and both trees
+  for c in crate::c08s::generate(seed, per * 3, sink) { out.push(c); sink.hit("class:syntax"); }
   let mut push = |class: &str, srcs: Vec<String>, sink: &mut Sink| { for s in srcs { sink.hit(&format!("class:{}", class)); out.push(format!("fmt\t{}\t{}", class, hexs(&s))); } };
   push("operators", take(crate::c01::generate(seed, thorough, &mut scratch), per).iter().map(|c| crate::c01::source(c)).collect(), sink);
   push("indexing", take(crate::c03::generate(seed, thorough, &mut scratch), per).iter().map(|c| crate::c03::source(c)).collect(), sink);
